@@ -1,0 +1,221 @@
+//! Verification seams. Only compiled with `--cfg nundb_verif`; every seam is a pass-through when no
+//! hook object is installed, so a hooked build without a harness behaves like the normal one.
+use std::cell::RefCell;
+use std::ops::{Deref, DerefMut};
+use std::panic::Location;
+use std::sync::{Arc, LockResult, PoisonError};
+use std::time::Duration;
+
+use futures::channel::mpsc::Receiver;
+
+use crate::bo::{Client, Databases, Value};
+
+pub trait Hooks: Send + Sync {
+    /// Data directory override (replaces NUN_DBS_DIR for the calling thread).
+    fn data_dir(&self) -> Option<String> {
+        None
+    }
+    /// Logical clock replacing the wall clock in `Databases::next_op_log_id`.
+    fn now_nanos(&self) -> Option<u64> {
+        None
+    }
+    /// Called instead of `thread::sleep` in election_ops; return true if the sleep was handled.
+    fn sleep(&self, _dur: Duration, _site: &'static Location<'static>) -> bool {
+        false
+    }
+    fn yield_point(&self, _name: &'static str) {}
+    /// Impose an order on the keys a snapshot is about to write.
+    fn order_keys(&self, _keys: &mut Vec<(String, Value)>) {}
+    /// Called before a shim RwLock is acquired; may block until a scheduler grants it.
+    fn lock_acquire(&self, _lock: usize, _site: &'static Location<'static>, _write: bool) {}
+    fn lock_release(&self, _lock: usize, _write: bool) {}
+    /// Called by an outbound replication link thread instead of connecting over TCP.
+    /// Return true if the link was served by the harness (the thread then ends as on link loss).
+    fn link_takeover(
+        &self,
+        _peer: &str,
+        _self_addr: &str,
+        _is_primary: bool,
+        _dbs: &Arc<Databases>,
+        _client: &mut Client,
+        _receiver: &mut Receiver<String>,
+    ) -> bool {
+        false
+    }
+    fn event(&self, _name: &'static str, _detail: &str) {}
+}
+
+thread_local! {
+    static LOCAL: RefCell<Option<Arc<dyn Hooks>>> = RefCell::new(None);
+}
+static GLOBAL: std::sync::RwLock<Option<Arc<dyn Hooks>>> = std::sync::RwLock::new(None);
+
+pub fn install_thread(h: Option<Arc<dyn Hooks>>) {
+    LOCAL.with(|l| *l.borrow_mut() = h);
+}
+
+pub fn install_global(h: Option<Arc<dyn Hooks>>) {
+    *GLOBAL.write().unwrap_or_else(|e| e.into_inner()) = h;
+}
+
+pub fn current() -> Option<Arc<dyn Hooks>> {
+    let local = LOCAL.try_with(|l| l.borrow().clone()).unwrap_or(None);
+    if local.is_some() {
+        return local;
+    }
+    GLOBAL.read().unwrap_or_else(|e| e.into_inner()).clone()
+}
+
+pub fn data_dir() -> Option<String> {
+    current().and_then(|h| h.data_dir())
+}
+
+pub fn now_nanos() -> Option<u64> {
+    current().and_then(|h| h.now_nanos())
+}
+
+pub fn yield_point(name: &'static str) {
+    if let Some(h) = current() {
+        h.yield_point(name)
+    }
+}
+
+pub fn order_keys(keys: &mut Vec<(String, Value)>) {
+    if let Some(h) = current() {
+        h.order_keys(keys)
+    }
+}
+
+pub fn event(name: &'static str, detail: &str) {
+    if let Some(h) = current() {
+        h.event(name, detail)
+    }
+}
+
+pub fn link_takeover(
+    peer: &str,
+    self_addr: &str,
+    is_primary: bool,
+    dbs: &Arc<Databases>,
+    client: &mut Client,
+    receiver: &mut Receiver<String>,
+) -> bool {
+    match current() {
+        Some(h) => h.link_takeover(peer, self_addr, is_primary, dbs, client, receiver),
+        None => false,
+    }
+}
+
+/// `std::thread` with a hookable `sleep`.
+pub mod thread {
+    pub use std::thread::*;
+
+    #[track_caller]
+    pub fn sleep(dur: std::time::Duration) {
+        let site = std::panic::Location::caller();
+        if let Some(h) = super::current() {
+            if h.sleep(dur, site) {
+                return;
+            }
+        }
+        std::thread::sleep(dur)
+    }
+}
+
+/// Same `read`/`write` surface as `std::sync::RwLock`, reporting acquisitions and releases.
+pub struct RwLock<T> {
+    inner: std::sync::RwLock<T>,
+    site: &'static Location<'static>,
+}
+
+pub struct ReadGuard<'a, T> {
+    inner: std::sync::RwLockReadGuard<'a, T>,
+    lock: usize,
+}
+
+pub struct WriteGuard<'a, T> {
+    inner: std::sync::RwLockWriteGuard<'a, T>,
+    lock: usize,
+}
+
+impl<T> RwLock<T> {
+    #[track_caller]
+    pub fn new(t: T) -> RwLock<T> {
+        RwLock {
+            inner: std::sync::RwLock::new(t),
+            site: Location::caller(),
+        }
+    }
+
+    fn id(&self) -> usize {
+        self as *const RwLock<T> as *const u8 as usize
+    }
+
+    pub fn read(&self) -> LockResult<ReadGuard<'_, T>> {
+        let lock = self.id();
+        if let Some(h) = current() {
+            h.lock_acquire(lock, self.site, false)
+        }
+        match self.inner.read() {
+            Ok(inner) => Ok(ReadGuard { inner, lock }),
+            Err(p) => Err(PoisonError::new(ReadGuard {
+                inner: p.into_inner(),
+                lock,
+            })),
+        }
+    }
+
+    pub fn write(&self) -> LockResult<WriteGuard<'_, T>> {
+        let lock = self.id();
+        if let Some(h) = current() {
+            h.lock_acquire(lock, self.site, true)
+        }
+        match self.inner.write() {
+            Ok(inner) => Ok(WriteGuard { inner, lock }),
+            Err(p) => Err(PoisonError::new(WriteGuard {
+                inner: p.into_inner(),
+                lock,
+            })),
+        }
+    }
+
+    pub fn is_poisoned(&self) -> bool {
+        self.inner.is_poisoned()
+    }
+}
+
+impl<'a, T> Deref for ReadGuard<'a, T> {
+    type Target = T;
+    fn deref(&self) -> &T {
+        &self.inner
+    }
+}
+
+impl<'a, T> Deref for WriteGuard<'a, T> {
+    type Target = T;
+    fn deref(&self) -> &T {
+        &self.inner
+    }
+}
+
+impl<'a, T> DerefMut for WriteGuard<'a, T> {
+    fn deref_mut(&mut self) -> &mut T {
+        &mut self.inner
+    }
+}
+
+impl<'a, T> Drop for ReadGuard<'a, T> {
+    fn drop(&mut self) {
+        if let Some(h) = current() {
+            h.lock_release(self.lock, false)
+        }
+    }
+}
+
+impl<'a, T> Drop for WriteGuard<'a, T> {
+    fn drop(&mut self) {
+        if let Some(h) = current() {
+            h.lock_release(self.lock, true)
+        }
+    }
+}
